@@ -2,12 +2,12 @@
 from __future__ import annotations
 
 from harness.common import LINE_TERMINATORS, VERSIONS, Reject, Violation, run, stub_repr
-from harness.stepkit import BATTERY_TEXTS, HEARTBEAT_TEXTS, World, build_registry, check_consistency, compare_outcome, compare_registry
+from harness.stepkit import draw_id, BATTERY_TEXTS, HEARTBEAT_TEXTS, World, build_registry, check_consistency, compare_outcome, compare_registry
 from spec import step_model as M
 
 PROPERTY = "C04"
 BOUNDS = {
-    "quick": "one step from every built pre-state: 0..1 registry node (id sym [10,99]) with 0..1 child (id sym [10,99]) and 0..1 stored value (type sym [0,9]); event node sym [10,99], child sym [10,99] or 255, command per partition, type sym [0,9]; plus a 'digits' partition per version: set message, node+child present, all four ids sym [0,255] (all digit classes, 0/254/255 boundaries) (set/req/presentation) or from the list {0,5,9,11,12,18,21,22,32} (internal) / sym [0,5] (stream); payload symbolic |p|<=1 (battery/heartbeat: class lists of 16/10 texts through the real float()/int()); 5 versions; 2-line histories through one listen() generator",
+    "quick": "one step from every built pre-state: 0..1 registry node (id sym [10,99]) with 0..1 child (id sym [10,99]) and 0..1 stored value (type sym [0,9]); event node sym [10,99], child sym [10,99] or 255, command per partition, type sym [0,9]; plus 'boundary' partitions per version and command with node ids from {0,255} and child ids from {0,254,255} (concrete picks), and a 'digits' partition per version: set message, node+child present, all four ids sym [0,255] (all digit classes, 0/254/255 boundaries) (set/req/presentation) or from the list {0,5,9,11,12,18,21,22,32} (internal) / sym [0,5] (stream); payload symbolic |p|<=1 (battery/heartbeat: class lists of 16/10 texts through the real float()/int()); 5 versions; 2-line histories through one listen() generator",
     "thorough": "all ids sym [0,255], types sym [0,40], 0..2 registry nodes, 0..2 children each, and 3-line histories",
 }
 REALISED = ["battery / heartbeat payload texts are concrete class lists"]
@@ -33,6 +33,9 @@ def partitions(tier):
             parts.append({"name": "step-%s-cmd%d%s" % (v, cmd, sub), "fn": "sym_step", "version": v, "cmd": cmd, "sub": sub,
                           "maxnodes": 1 if q else 2, "maxch": 1 if q else 2, "idlo": 10 if q else 0, "idhi": 99 if q else 255,
                           "tvhi": 9 if q else 40, "budget": 500 if q else 3000, "cost": 5 if cmd == 3 else 3})
+        for cmd in (0, 1, 2, 4):
+            parts.append({"name": "boundary-%s-cmd%d" % (v, cmd), "fn": "sym_step", "version": v, "cmd": cmd, "sub": "", "maxnodes": 1, "maxch": 1,
+                          "idset": [0, 255], "cidset": [0, 254], "cevset": [0, 254, 255], "idlo": 0, "idhi": 255, "tvhi": 9, "budget": 500 if q else 2000, "cost": 3})
         parts.append({"name": "digits-%s" % v, "fn": "sym_step", "version": v, "cmd": 1, "fixnodes": 1, "fixch": 1, "values": False,
                       "idlo": 0, "idhi": 255, "tvhi": 9, "budget": 500 if q else 3000, "cost": 3})
         parts.append({"name": "order-%s" % v, "fn": "sym_order", "version": v, "steps": 2 if q else 3,
@@ -49,8 +52,8 @@ def sym_step(inp, part):
     w = World(inp, v)
     build_registry(w, inp, part)
     lo, hi = part.get("idlo", 0), part.get("idhi", 255)
-    n = inp.int("n", lo, hi)
-    c = 255 if (hi < 255 and inp.bool("sys")) else inp.int("c", lo, hi)
+    n = draw_id(inp, "n", part, lo, hi)
+    c = 255 if (hi < 255 and inp.bool("sys")) else draw_id(inp, "c", part, lo, hi)
     ack = 0
     conv = None
     if cmd == 3:
